@@ -87,7 +87,7 @@ type event struct {
 }
 
 type session struct {
-	ch      *channel.Channel
+	ch      *schan
 	progs   []string
 	grant   []chan struct{}
 	events  chan event
@@ -223,8 +223,7 @@ type outcome struct {
 // runSchedule forces `sc` on a fresh real Channel and compares every step with the prediction.
 func runSchedule(capacity int, progs []string, sc sched, settle time.Duration) (out outcome) {
 	n := len(progs)
-	s := &session{ch: channel.NewChannel(), progs: progs, events: make(chan event, 16*n+16)}
-	s.ch.Construct(nil, data.NewIntValue(capacity))
+	s := &session{ch: newSchan(capacity), progs: progs, events: make(chan event, 16*n+16)}
 	s.grant = make([]chan struct{}, n)
 	for t := range s.grant {
 		s.grant[t] = make(chan struct{}, 1)
